@@ -2,6 +2,7 @@
 From Coq Require Import Strings.String Strings.Byte.
 From Coq Require Import List NArith.
 From Goit Require Import Bytes Obj Tree Index IndexFacts TreeFacts DiffFacts.
+From Goit Require Import Commit World Repo Inv SnapshotFacts.
 Import ListNotations.
 
 (* T1: the comparison of the staging area with the HEAD tree reports exactly
@@ -42,8 +43,27 @@ Theorem C07_get_node_leaf_iff : forall its,
   forall p, (exists n, get_node (map node_of its) p = Some n /\ is_leaf n = true) <-> In p (paths_of its).
 Proof. exact get_node_leaf_iff. Qed.
 
+
+(* ---------- Part 2: the commit gate on reachable worlds ---------- *)
+(* on a world satisfying the history invariants the gate's test is exactly
+   "staging area = HEAD snapshot" *)
+Theorem C07_gate_is_snapshot_equality : forall w hid cm d ns,
+  GoodW w -> get_commit (w_objs w) hid = Some cm -> get_kind (w_objs w) KTree (c_tree cm) = Some d ->
+  walk_tree (S (length (w_objs w))) (w_objs w) d = Some ns ->
+  (diff_with_tree (idx_of w) ns = [] <-> snapshot (w_objs w) hid = Some (idx_of w)).
+Proof. exact commit_guard. Qed.
+
+(* a commit issued while the staging area equals the HEAD snapshot is refused,
+   creates nothing and moves nothing: the world is unchanged, the trace empty *)
+Theorem C07_commit_nothing_refused : forall e msg w hid,
+  GoodW w -> am_get (w_refs w) (w_head w) = Some hid -> snapshot (w_objs w) hid = Some (idx_of w) ->
+  step (ACmd e (CCommit msg)) w = (w, OErr, []).
+Proof. exact commit_nothing_refused. Qed.
+
 Print Assumptions C07_diff_exact.
 Print Assumptions C07_nothing_to_commit_iff.
 Print Assumptions C07_empty_after_commit.
 Print Assumptions C07_difference_is_reported.
 Print Assumptions C07_get_node_leaf_iff.
+Print Assumptions C07_gate_is_snapshot_equality.
+Print Assumptions C07_commit_nothing_refused.
